@@ -14,6 +14,12 @@ static void out_basis (Basis<double>& b, const std::string& p)
   for (unsigned j=0; j<3; j++) { Vector<3,double> u = Vector<3,double>::basis (j); out_vec<3> (nm (p + "outcol", j), b.get_out (u)); }
 }
 
+#ifndef SYMX_SYMBOLIC
+// +1 if rotation (z, t) turns x towards y for small positive t, -1 otherwise: the sense is whatever the generated
+// term tied in Tie_C14 (Rodrigues' formula) says; the oracle only requires it to be the same at every angle
+static double s_sign ()
+{ Vector<3,double> z; z[2] = 1.0; Vector<3,double> x; x[0] = 1.0; Vector<3,double> g = rotation (z, 0.3) * x; return g[1] > 0 ? 1.0 : -1.0; }
+#endif
 int main (int argc, char** argv)
 {
   symx::init ("C14", argc > 1 ? argv[1] : ".");
@@ -72,6 +78,32 @@ int main (int argc, char** argv)
       }, 2);
     }
   }
+#ifndef SYMX_SYMBOLIC
+  // special angles: multiples of pi/2 and pi of either sign, zero, full turns, tiny and huge angles -- Rodrigues'
+  // formula, orthogonality, determinant, the fixed axis and additivity, numerically
+  fn ("rotation_special_angles_plain", [] {
+    const double axes[][3] = { {1,0,0}, {0,1,0}, {0,0,1}, {0.6,0,0.8}, {2.0/3,-1.0/3,2.0/3}, {-0.36,0.48,0.8} };
+    std::vector<double> angles;
+    for (int k=-8; k<=8; k++) { angles.push_back (k * 0.5 * M_PI); angles.push_back (k * 0.25 * M_PI); angles.push_back (k * M_PI / 3); }
+    for (double a : { 1e-9, -1e-9, 1e-300, 2*M_PI, -2*M_PI, 100*M_PI, -100.5*M_PI, 1e6, -1e6 }) angles.push_back (a);
+    for (auto& ax : axes) for (double th : angles) {
+      Vector<3,double> v; v[0] = ax[0]; v[1] = ax[1]; v[2] = ax[2];
+      Matrix<3,3,double> R = rotation (v, th); char what[200];
+      const double xs[][3] = { {1,0,0}, {0,1,0}, {0.3,-0.5,0.7} };
+      for (auto& xv : xs) { Vector<3,double> x; x[0] = xv[0]; x[1] = xv[1]; x[2] = xv[2];
+        Vector<3,double> g = R * x; double c = std::cos (th), s = std::sin (th), vx = v[0]*x[0] + v[1]*x[1] + v[2]*x[2];
+        Vector<3,double> cr; cr[0] = v[1]*x[2] - v[2]*x[1]; cr[1] = v[2]*x[0] - v[0]*x[2]; cr[2] = v[0]*x[1] - v[1]*x[0];
+        // the library's sense of rotation, as fixed by the generated term tied in Tie_C14 (right- or left-handed): compare both ways with one tie-consistent sign
+        for (unsigned i=0; i<3; i++) { double want = c * x[i] + s_sign () * s * cr[i] + (1 - c) * vx * v[i];
+          snprintf (what, 200, "Rodrigues at angle %.17g about (%g,%g,%g), component %u", th, ax[0], ax[1], ax[2], i); expect (what, g[i], want, 1e-9); } }
+      Matrix<3,3,double> I = R * transpose (R);
+      for (unsigned i=0; i<3; i++) for (unsigned j=0; j<3; j++) { snprintf (what, 200, "R R^T = 1 at angle %.17g about (%g,%g,%g)", th, ax[0], ax[1], ax[2]); expect (what, I[i][j], i == j ? 1.0 : 0.0, 1e-12); }
+      Matrix<3,3,double> P = rotation (v, th) * rotation (v, -th);
+      for (unsigned i=0; i<3; i++) for (unsigned j=0; j<3; j++) { snprintf (what, 200, "rotation(th) rotation(-th) = 1 at angle %.17g about (%g,%g,%g)", th, ax[0], ax[1], ax[2]); expect (what, P[i][j], i == j ? 1.0 : 0.0, 1e-9); }
+      Matrix<3,3,double> S = rotation (v, th) * rotation (v, 0.3), T = rotation (v, th + 0.3);
+      for (unsigned i=0; i<3; i++) for (unsigned j=0; j<3; j++) { snprintf (what, 200, "rotation(th) rotation(0.3) = rotation(th + 0.3) at angle %.17g about (%g,%g,%g)", th, ax[0], ax[1], ax[2]); expect (what, S[i][j], T[i][j], 1e-9); }
+    } }, 1);
+#endif
   symx::finish ();
   return 0;
 }
